@@ -94,11 +94,13 @@ def relayout(text, k, seed=0):
     rnd = random.Random(seed)
     out = []
     first = True
+    # line ends the harness itself writes; the text INSIDE a token (a documentation string may span lines) is never touched
+    nl = "\r\n" if k == "tabscrlf" else "\n"
     for tok, trailing, own in items:
         for c in own:
             if out and not out[-1].endswith("\n"):
-                out.append("\n")
-            out.append(c + "\n")
+                out.append(nl)
+            out.append(c + nl)
         if k == "oneperline":
             sep = "" if first or out[-1].endswith("\n") else "\n"
         elif k == "fewlines":
@@ -112,15 +114,12 @@ def relayout(text, k, seed=0):
         out.append(sep + tok.text)
         first = False
         if trailing:
-            out.append(" " + " ".join(trailing) + "\n")     # several comments on one line merge into one comment token anyway
+            out.append(" " + " ".join(trailing) + nl)     # several comments on one line merge into one comment token anyway
     for c in tail:
         if out and not out[-1].endswith("\n"):
-            out.append("\n")
-        out.append(c + "\n")
-    res = "".join(out)
-    if k == "tabscrlf":
-        res = res.replace("\r\n", "\n").replace("\n", "\r\n")
-    return res
+            out.append(nl)
+        out.append(c + nl)
+    return "".join(out)
 
 
 LAYOUTS = ["oneperline", "fewlines", "tabscrlf", "blanklines", "random"]
